@@ -80,7 +80,7 @@ struct Gen{
     int ca=(int)r.weighted({50,30,20}),cb=(int)r.weighted({60,22,18});
     if(want_move){ if(r.chance(0.7)) ca=CAT_MOVE; else cb=CAT_MOVE; if(e>E_MULS&&e!=E_EPROD&&e!=E_EOP){ o["expr"]=expr_names[r.chance(0.5)?E_ADD:E_SUB]; e=E_ADD; } }
     o["ca"]=ca; o["cb"]=cb; o["x"]=r.chance(0.3)?(double)r.range(-3,3):r.uniform(-2,2);
-    o["flags"]=(int)r.weighted({40,12,12,12,8,4,6,6}); o["fn"]=(int)r.below(2); o["nest"]=(int)r.below(10);
+    o["flags"]=(int)r.weighted({40,12,12,12,8,4,6,6}); o["fn"]=(int)r.below(2); o["nest"]=(int)r.below(12);
     // approximate effect on the generator's view
     if(how==HOW_CTOR) g[t]={true,d,K_OWNED,false};
     else if(how==HOW_ASSIGN && g[t].kind!=K_EXT){ g[t].dim=d; g[t].kind=K_OWNED; g[t].mf=false; }
@@ -172,10 +172,10 @@ struct Gen{
         int b=pick_usable_otherdim(g[a].dim);
         if(b<0){ int d; do{ d=dimension(); }while(d==g[a].dim); b=construct(d); if(b<0) return; }
         if(r.chance(0.5)) std::swap(a,b);
-        int e=(int)r.weighted({12,12,12,12,20,8,8}); static const int es[]={E_ADD,E_SUB,E_ICOMM,E_ACOMM,E_EVOL,E_EPROD,E_EOP};
+        int e=(int)r.weighted({12,12,12,12,20,8,8,10}); static const int es[]={E_ADD,E_SUB,E_ICOMM,E_ACOMM,E_EVOL,E_EPROD,E_EOP,E_NESTED};
         Json& o=add("stmt"); static const char* hows[]={"=","+=","-=","ctor"}; int how=(int)r.below(4); int tt=pick(p_alive);
         if(how==HOW_CTOR){ tt=pick(p_dead); if(tt<0){ how=0; tt=a; } }
-        o["how"]=hows[how]; o["expr"]=expr_names[es[e]]; o["t"]=tt; o["a"]=a; o["b"]=b; o["ca"]=(int)r.below(3); o["cb"]=(int)r.below(3); o["x"]=0.7; o["flags"]=0; o["fn"]=(int)r.below(2); o["nest"]=0;
+        o["how"]=hows[how]; o["expr"]=expr_names[es[e]]; o["t"]=tt; o["a"]=a; o["b"]=b; o["ca"]=(int)r.below(3); o["cb"]=(int)r.below(3); o["x"]=0.7; o["flags"]=0; o["fn"]=(int)r.below(2); o["nest"]=(es[e]==E_NESTED)?(int)(10+r.below(2)):0;
         break; }
       case 7:{ int a=pick(p_usable); if(a<0){ construct(); return; } int b=pick_usable_otherdim(g[a].dim); if(b<0) return;
                Json& o=add("compound"); o["t"]=a; o["s"]=b; o["sign"]=r.chance(0.5)?"+":"-"; break; }
